@@ -709,6 +709,13 @@ class UpdGen:
                 quads.append(b["tps"][0] + [gt])
             return {"form": "delete_where_short", "del": quads, "ins": [], "where": where_of_quads(quads)}
         g = Gen(r, {"union", "graph", "filter", "values", "sub", "order", "limit", "distinct"}, self.pool)
+        if r.random() < 0.08:
+            # the same solution several times (UNION branches that bind the same values) and a template with a blank node:
+            # every occurrence of a solution gets its own fresh node
+            p = C(r.choice(P_IRI))
+            b = {"t": "bgp", "tps": [[V("a"), p, V("b")]]}
+            where = {"t": "join", "ps": [{"t": "union", "ps": [{"t": "join", "ps": [b]}, {"t": "join", "ps": [b]}]}]}
+            return {"form": "insert_where", "del": [], "ins": [[V("a"), C(P_IRI[1]), ["b", "x"], DEFAULT_G], [["b", "x"], C(P_LIT), C(r.choice(LITS)), DEFAULT_G]], "where": where}
         if r.random() < 0.15:
             # self-referential swap
             p = C(r.choice(P_IRI))
